@@ -411,7 +411,11 @@ def run(c):
   table, helper, unknown = sql_txn.write(core.REPO, core.LEAN_DIR)
   c.add_obligation('translator: every database call of sql_datastore.py recognised', not unknown, '; '.join(unknown[:8]))
   c.coverage_extra['sql_transaction_shape'] = {k: [' '.join(p) for p in v] for k, v in table.items()}
+  # translator: which RPCs every client-library method issues (one writing RPC per single-resource call)
+  from vcheck import clientshapecheck
+  clientshapecheck.translate(c)
   c.proof_stage()
+  clientshapecheck.stage(c)
   crash_stage(c)
   client_crash_stage(c)
   svc.cleanup()
